@@ -25,6 +25,21 @@ one at a time while the same clause keeps failing, and (without creases) the oth
 
 (feat=off: no detector or a detector that found border edges only - the cutter's plain code path; geom=* with creases,
 where the coordinates decide the feature set and are not an independent dimension).
+
+Call histories (tasks with "history").  The statement speaks about *the* cut mesh / *the* reported edges of a cutter, whatever the
+order in which its lazily built results are asked for and whoever else reads them.  For a selection of configurations ONE cutter
+object (singular vertices handed over as a list, the form the cutter keeps by reference) is run and then explored breadth-first
+over its states: events = every public call that runs code on it or is handed its live objects - output_mesh, cut_graph, run()
+again, FaceSpanningTree / FaceSpanningForest(forbidden_edges=cutter.cut_edges) as the library's own callers do, a second cutter
+built from the same mesh / singularity list / detector objects.  State key = all fields of the cutter (containers by value, lazily
+built meshes by presence and size) + the caller's own objects.  After every call:  the answer equals the one of a fresh twin queried
+in the canonical order (history.query_order), a traversal avoiding the reported cuts reaches exactly the faces the twin's cut leaves
+connected (history.traversal_avoiding_cuts), a second cutter sharing the arguments satisfies every clause (history.shared_arguments.*),
+cut_edges / cut_adj are untouched by calls that only read them (history.reported_sets_unchanged), the caller's singularity list,
+the detector's feature sets and the input mesh are untouched (history.inputs_unchanged), ref_vertex is the twin's map (or still
+missing while the cut mesh was never asked for).  When a live object is spent all clauses of the statement are re-checked on it
+(history.final.*).  input_class of a history failure = "hist=<minimal failing history>", derived by dropping calls one at a time
+and replaying on fresh objects while the same clause keeps failing.
 """
 from __future__ import annotations
 import itertools
@@ -33,12 +48,15 @@ from mc import families as F
 
 ID = "C16"
 TECHNIQUE = ("bounded-exhaustive enumeration of (connected surface, coordinates, singularity set, feature mode) "
-             "run through the real SingularityCutter vs an independent combinatorial-topology oracle")
+             "run through the real SingularityCutter vs an independent combinatorial-topology oracle; explicit-state BFS over the "
+             "call histories of one cutter object vs a fresh twin")
 RULE = ("one case = (family member, coordinate alphabet [ties|generic], feature mode [none|border-only detector|full "
         "detector], singularity set) run on a freshly built mesh; singularity sets = every vertex subset up to the "
         "size bound, smallest first, plus the set of all vertices; distinct = different (faces, coordinates, feature "
         "mode, set); non-trivial = something has to be cut (closed surface with >= 2 singularities or genus > 0, more "
-        "than one border loop, or a singular vertex off the border)")
+        "than one border loop, or a singular vertex off the border). History cases: one case = (configuration, state of one cutter "
+        "object reached by a history of public calls after run(), next call); states are distinct by the canonical key of all fields of "
+        "the cutter and of the caller's objects")
 ASSUMPTIONS = [
     "inputs are connected oriented manifold triangle complexes within the size bounds (disconnected members are filtered and counted)",
     "singularities are passed as a list of distinct python ints; the detector is the library's own FeatureEdgeDetector run on the same mesh (verbose off)",
@@ -48,16 +66,27 @@ ASSUMPTIONS = [
     "'opened' is read combinatorially: an interior edge is still closed iff the two faces on its sides use the same two output vertices for it",
     "hash seeds are not enumerated: every set/dict iterated by the anchored code is keyed by ints (or tuples of ints), whose hashes do not depend on PYTHONHASHSEED",
     "each (mesh, singularity set) is run on a fresh mesh object, except in the 'rerun' cases (second cutter on the mesh object a first cutter already ran on), tagged as such",
+    "history search: two live cutters with the same state key (all fields of the cutter: containers by value, meshes / attribute containers by type and size; "
+    "the caller's singularity list, the detector's feature sets, the input mesh's vertices / edges / faces) are taken to have the same futures - caches kept "
+    "inside the input mesh are not part of the key; a call that leaves the key unchanged is followed by the next call on the same object (the reported history "
+    "lists every call actually made); states are re-created by replaying their history on fresh objects and the replayed keys are compared",
+    "history search: the answers of the fresh twin are demanded identically (same face corners, same ref_vertex dict, same cut_edges ids) because the code is "
+    "deterministic for a given input and argument form; run() again is not a reader, after it only the closing re-check of all clauses and the caller's objects are judged",
+    "cut_graph is not queried on a sphere that is left uncut (the statement promises no polyline there)",
 ]
 BOUNDS = {
     "quick": "singularity sets: every subset of <=2 vertices + all vertices. SURF triangles n<=5, all 434 connected labelled complexes x {lattice, moment curve} x "
              "{no detector, border-only detector, full detector}; SURF(6) 27 connected classes idem; grids 3x3 3x4 4x4 5x5 ('tri'; also 'tri2' on 3x3, 4x4) x {lattice, "
              "perturbed} x {flat: none, flat: border-only, fold / plateau / bump: full detector}; all 71 connected manifold proper sub-complexes of the 3x3 grid and the 4x4 grid "
              "with 1 face removed x {flat: none, flat: border-only, fold: full detector}; one pair of pants (5x5 minus 2 interior faces); octahedron, icosahedron, tori 3x3 "
-             "3x4 4x4, 7-vertex torus, torus 3x3 minus 1 face; second cutter on an already used mesh object for SURF(<=5) classes, grids 3x3 / 4x4, octahedron (sets <=1)",
+             "3x4 4x4, 7-vertex torus, torus 3x3 minus 1 face; second cutter on an already used mesh object for SURF(<=5) classes, grids 3x3 / 4x4, octahedron (sets <=1). "
+             "Call histories: BFS over the states of one cutter, 6 events, <= 3 state-changing calls deep (every event tried in every state), on the triangle + the 8 classes of "
+             "SURF(4..5) (sets <=2 + all) and the 27 SURF(6) classes (7-8 chosen sets) x {no detector, full detector}; grids 3x3 (sets <=1), 4x4 (chosen sets) flat x {none, border-only} "
+             "and fold / bump / plateau x full detector; 6 holey 3x3 grids, one pair of pants, octahedron, icosahedron, 7-vertex torus, torus 3x3 (both alphabets), torus 3x3 minus 1 face",
     "thorough": "singularity sets: every subset of <=3 vertices + all vertices (<=2 on the 4x4 grids with 2 faces removed, the pairs of pants and the tori with faces removed). "
                 "As quick, plus: the 15 transposition relabelings of every SURF(6) class; grids 3x3 3x4 3x5 4x4 4x5 5x5 x {tri, tri2}; 4x4 grid with <=2 faces removed; "
-                "4 pairs of pants; torus 3x3 minus <=2 faces, torus 3x4 minus 1 face",
+                "4 pairs of pants; torus 3x3 minus <=2 faces, torus 3x4 minus 1 face. Call histories: <= 4 state-changing calls deep; SURF(<=5) classes on both alphabets, "
+                "SURF(6) classes with sets <=2, grids 3x3 3x4 4x4 5x5 with sets <=1, all 71 holey 3x3 grids, closed specimens with sets <=1, 3 tori minus 1 face",
 }
 PINNED = {"surf3": 2, "surf4": 22, "surf5": 410, "surf6c": 28}
 
@@ -276,6 +305,33 @@ def tasks(tier):
         for z in ("fold", "bump"):
             add([["grid", k, l, "tri", z]], feats=("detect",), smax_=1, rerun=True)
     add([["named", "octahedron"]], feats=("none", "detect"), smax_=1, rerun=True)
+    # ---- call histories on one cutter object (breadth-first over the public calls after run())
+    depth = 4 if thorough else 3
+
+    def hist(specs, feats, sets, geoms=("ties",)):
+        for geom in geoms:
+            for feat in feats:
+                out.append({"meshes": specs, "geom": geom, "feat": feat, "history": depth, "sets": sets})
+    hm = [["surf", 3, 0]] + rr
+    for i in range(0, len(hm), 3):
+        hist(hm[i:i + 3], ("none", "detect"), 2, GEOMS if thorough else ("ties",))
+    sixc = [sp for sp in six if sp[2] is None]
+    for i in range(0, len(sixc), 3 if thorough else 5):
+        hist(sixc[i:i + (3 if thorough else 5)], ("none", "detect"), 2 if thorough else "few")
+    for (k, l) in ((3, 3), (4, 4)) + (((3, 4), (5, 5)) if thorough else ()):
+        hist([["grid", k, l, "tri", "flat"]], ("none", "border"), 1 if (thorough or k == 3) else "few")
+        for z in ("fold", "bump") + (("plateau",) if k >= 4 else ()):
+            hist([["grid", k, l, "tri", z]], ("detect",), 1 if (thorough or k == 3) else "few")
+    for m in masks33[::1 if thorough else 12]:
+        hist([["holey", 3, 3, "tri", "flat", m]], ("none",), "few")
+        hist([["holey", 3, 3, "tri", "fold", m]], ("detect",), "few")
+    hist([["holey", 5, 5, "tri", "flat", pants[0]]], ("none",), "few")
+    hist([["holey", 5, 5, "tri", "fold", pants[0]]], ("detect",), "few")
+    for name in ("octahedron", "icosahedron", "csaszar_torus"):
+        hist([["named", name]], ("none", "detect"), 1 if thorough else "few", GEOMS)
+    hist([["torus", 3, 3, 0]], ("none", "detect"), 1 if thorough else "few", GEOMS)
+    for m in _torus_masks(3, 3, 1)[:3 if thorough else 1]:
+        hist([["torus", 3, 3, m]], ("none", "detect"), "few")
     return out
 
 
@@ -533,6 +589,7 @@ class Session:
         self.M, self.rep = M, rep
         self.inputs = {}
         self.minimal = {}
+        self.minimal_hist = {}
 
     def input(self, spec, geom):
         key = (repr(spec), geom)
@@ -544,8 +601,8 @@ class Session:
         return self.inputs[key]
 
     # -------------------------------------------------------------------------------- one execution
-    def execute(self, spec, geom, feat, S, first=None):
-        """Fresh mesh -> (detector) -> (a first cutter, in rerun mode) -> cutter for S -> judge. Pure: nothing is recorded."""
+    def prepare(self, spec, geom, feat):
+        """Fresh mesh -> (detector). Returns (res, mesh, detector); res carries 'skip' when the premises fail."""
         M = self.M
         name, pts, faces, T = self.input(spec, geom)
         res = {"name": name, "pts": pts, "T": T, "fails": [], "evals": 0, "result": "skipped", "fcls": None, "obs": None,
@@ -553,7 +610,7 @@ class Session:
         m = F.build_surface(pts, faces)
         if set(tuple(sorted(int(x) for x in e)) for e in m.edges) != T.adjacent or len(m.edges) != len(T.adjacent):
             res["skip"] = "premise_failed"
-            return res
+            return res, m, None
         fd = None
         if feat != "none":
             o = call(lambda: M.processing.FeatureEdgeDetector(only_border=(feat == "border"), verbose=False))
@@ -562,13 +619,22 @@ class Session:
                 o = call(fd.run, m)
             if not o.ok:
                 res["skip"] = "detector_raised:" + o.exc          # the detector is C15's subject
-                return res
+                return res, m, None
             border = set(T.border)
             fe = sorted(tuple(sorted(int(x) for x in m.edges[int(e)])) for e in fd.feature_edges)
             res["feature_edges"] = fe
             res["fcls"] = "feat=crease" if any(e not in border for e in fe) else "feat=border"
         else:
             res["fcls"] = "feat=none"
+        return res, m, fd
+
+    def execute(self, spec, geom, feat, S, first=None, form=None):
+        """Fresh mesh -> (detector) -> (a first cutter, in rerun mode) -> cutter for S -> judge. Pure: nothing is recorded."""
+        M = self.M
+        res, m, fd = self.prepare(spec, geom, feat)
+        if "skip" in res:
+            return res
+        T, pts = res["T"], res["pts"]
         if first is not None:
             c0 = M.processing.SingularityCutter(m, list(first), features=fd, verbose=False)
             if call(c0.run).ok:
@@ -580,7 +646,7 @@ class Session:
             return res
         # the container handed to the cutter: list / tuple / set / one-shot generator, assigned to each singularity set
         # by a fixed rule (so that every form meets every input class); the answer must not depend on it
-        form = (sum(S) + len(S)) % 4
+        form = (sum(S) + len(S)) % 4 if form is None else ("list", "tuple", "set", "generator").index(form)
         Sarg = [list(S), tuple(S), set(S), (v for v in list(S))][form]
         res["container_form"] = ("list", "tuple", "set", "generator")[form]
         o = call(lambda: M.processing.SingularityCutter(m, Sarg, features=fd, verbose=False))
@@ -686,7 +752,371 @@ class Session:
                             "result": res["result"], "cut_edges": sorted(obs["cut_pairs"]) if obs and obs["cut_pairs"] is not None else None})
 
 
+# ------------------------------------------------------------------------------------------ call histories on one cutter
+# One cutter object (fresh mesh, singular vertices handed over as a *list*, the aliasing-prone form; the library's own
+# detector object) is run once and then receives a history of public calls.  Events = every public call that executes
+# code on the cutter or is handed the cutter's own live result objects / the caller's own argument objects:
+EVENTS = ("face_tree", "face_forest", "second_cutter", "run", "output_mesh", "cut_graph")     # readers first: fewer replays
+EV_CALLEE = {"output_mesh": "SingularityCutter.output_mesh", "cut_graph": "SingularityCutter.cut_graph",
+             "face_tree": "FaceSpanningTree(forbidden_edges=cutter.cut_edges).__call__",
+             "face_forest": "FaceSpanningForest(forbidden_edges=cutter.cut_edges).__call__",
+             "second_cutter": "SingularityCutter(same mesh, same singularity list, same detector).run",
+             "run": "SingularityCutter.run(again)", None: "SingularityCutter.run"}
+READERS = ("output_mesh", "cut_graph", "face_tree", "face_forest", "second_cutter")     # calls that only read the reported sets
+
+
+def _is_subsequence(a, b):
+    it = iter(b)
+    return all(x in it for x in a)
+
+
+def _snap_reported(cutter):
+    ce, adj, ref = cutter.cut_edges, cutter.cut_adj, cutter.ref_vertex
+    return {"cut_edges": None if ce is None else sorted(int(e) for e in ce),
+            "cut_adj": None if adj is None else sorted((int(a), sorted(int(b) for b in nb)) for a, nb in adj.items() if len(nb)),
+            "ref": None if ref is None else sorted((int(k), int(v)) for k, v in ref.items())}
+
+
+def _snap_inputs(m, Sarg, fd):
+    return {"singularities": [int(x) for x in Sarg],
+            "feature_sets": None if fd is None else [sorted(int(e) for e in fd.feature_edges), sorted(int(v) for v in fd.feature_vertices)],
+            "input_mesh": [[tuple(float(x) for x in m.vertices[i]) for i in range(len(m.vertices))],
+                           [tuple(int(v) for v in f) for f in m.faces], [tuple(int(v) for v in e) for e in m.edges]]}
+
+
+def _state_key(cutter, reported, inputs):
+    """Canonical key of the state of the cutter: every field of the object - plain containers by value, other objects
+    (meshes, attribute containers, the detector) by type and size, so that 'lazy result built / not built yet' is part of it -
+    plus the caller's own objects."""
+    from mc.canon import canon
+    from mc.core import h64
+    fields = []
+    for k, v in sorted(vars(cutter).items()):
+        if v is None or isinstance(v, (bool, int, float, str, list, tuple, set, frozenset, dict)):
+            fields.append((k, canon(v, with_alias=False)))
+        else:
+            size = tuple(len(getattr(v, a)) for a in ("vertices", "edges", "faces") if hasattr(v, a))
+            fields.append((k, type(v).__name__, size))
+    return h64(repr((fields, reported, inputs)))
+
+
+class HistorySearch:
+    """Breadth-first search over the call histories of ONE cutter object for one configuration (mesh, geometry, detector,
+    singular vertices).  Objects cannot be copied reliably, so every history is replayed on fresh objects (the state keys of
+    the replayed prefix are compared with the ones recorded the first time).  Expectations come from a fresh twin queried in
+    the canonical order (Session.execute) and from the statement (_judge)."""
+
+    def __init__(self, ses, spec, geom, feat, S):
+        self.ses, self.spec, self.geom, self.feat, self.S = ses, spec, geom, feat, list(S)
+        self.twin = ses.execute(spec, geom, feat, S, form="list")
+        self.twin_fails = set((f["sub"], f["kind"]) for f in self.twin["fails"])
+        obs = self.twin["obs"]
+        self.twin_ref = None if (obs is None or obs["ref"] is None) else sorted(obs["ref"].items())
+        self.evals = 0
+        self.runs = 0          # cutter objects created and spent
+
+    # ---------------------------------------------------------------- independent expectation for the face traversals
+    def _dual_components(self):
+        """Components of the faces when the cut edges reported by the twin may not be crossed (own incidence code)."""
+        T, cut = self.twin["T"], self.twin["obs"]["cut_pairs"]
+        pairs = [(T.he[(a, b)][0], T.he[(b, a)][0]) for (a, b) in T.interior if (a, b) not in cut]
+        return F.components(len(T.faces), pairs), set(tuple(sorted(p)) for p in pairs)
+
+    # ---------------------------------------------------------------- one live cutter object
+    def start(self):
+        """Fresh mesh -> (detector) -> cutter(list of singular vertices).run().  Returns the live record; its 'fails' / 'keys' lists get
+        one entry per step (entry 0 = construction + run)."""
+        ses, M = self.ses, self.ses.M
+        res, m, fd = ses.prepare(self.spec, self.geom, self.feat)
+        Sarg = list(self.S)
+        live = {"m": m, "fd": fd, "Sarg": Sarg, "inputs0": _snap_inputs(m, Sarg, fd), "prev": None, "ref_ok": True, "hist": [],
+                "fails": [], "keys": []}
+        live["cutter"] = M.processing.SingularityCutter(m, Sarg, features=fd, verbose=False)
+        live["cutter"].run()                             # the twin got through the same two calls
+        self.step(live, None)
+        return live
+
+    def step(self, live, ev):
+        """Executes one event on the live object and compares: the answer of the call, then everything the call must leave alone."""
+        M = self.ses.M
+        twin, S = self.twin, self.S
+        T, pts, tobs = twin["T"], twin["pts"], twin["obs"]
+        m, fd, cutter, prev = live["m"], live["fd"], live["cutter"], live["prev"]
+        fails = []
+
+        def bad(sub, callee, kind, extra=None):
+            fails.append({"sub": "history." + sub, "callee": callee, "kind": kind, "extra": extra or {}})
+        if ev == "output_mesh":
+            o = call(lambda: cutter.output_mesh)
+            if o.ok:
+                answer = ([tuple(int(v) for v in f) for f in o.value.faces],
+                          [tuple(float(x) for x in o.value.vertices[i]) for i in range(len(o.value.vertices))])
+                self.evals += 1
+                if answer[0] != tobs["out_faces"] or answer[1] != tobs["out_pts"]:
+                    bad("query_order", EV_CALLEE[ev], "mismatch:output_mesh_differs_from_fresh_twin", {"got_faces": answer[0], "twin_faces": tobs["out_faces"]})
+        elif ev == "cut_graph":
+            o = call(lambda: cutter.cut_graph)
+            tw = tobs.get("cut_graph")
+            if o.ok and tw is not None and tw[0] == "ok":
+                vp = [tuple(float(x) for x in o.value.vertices[i]) for i in range(len(o.value.vertices))]
+                answer = sorted(tuple(sorted((vp[int(a)], vp[int(b)]))) for a, b in o.value.edges)
+                self.evals += 1
+                if answer != sorted(tw[1]):
+                    bad("query_order", EV_CALLEE[ev], "mismatch:cut_graph_differs_from_fresh_twin", {"n_segments": len(answer), "twin_n_segments": len(tw[1])})
+            elif not o.ok and tw is not None and tw[0] == "raised":
+                o = call(lambda: None)                   # the fresh twin raises as well: reported by the main cases
+        elif ev in ("face_tree", "face_forest"):
+            trees = M.processing.trees
+            if ev == "face_tree":
+                o = call(lambda: trees.FaceSpanningTree(m, 0, forbidden_edges=cutter.cut_edges)())
+            else:
+                o = call(lambda: trees.FaceSpanningForest(m, cutter.cut_edges)())
+            if o.ok and tobs["cut_pairs"] is not None:
+                comps, crossable = self._dual_components()
+                tl = [o.value] if ev == "face_tree" else list(o.value.trees)
+                o2 = call(lambda: [list(t.traverse()) for t in tl])
+                if not o2.ok:
+                    o = o2
+                else:
+                    self.evals += 1
+                    reached = sorted(sorted(int(n) for n, _ in tr) for tr in o2.value)
+                    want = [c for c in comps if 0 in c] if ev == "face_tree" else sorted(comps)
+                    links = [tuple(sorted((int(n), int(p)))) for tr in o2.value for n, p in tr if p is not None]
+                    if reached != want:
+                        bad("traversal_avoiding_cuts", EV_CALLEE[ev], "mismatch:faces_reached", {"reached": reached, "want": want})
+                    elif any(l not in crossable for l in links):
+                        bad("traversal_avoiding_cuts", EV_CALLEE[ev], "mismatch:link_crosses_a_cut_edge", {"links": [l for l in links if l not in crossable][:6]})
+        elif ev == "second_cutter":
+            o = call(lambda: M.processing.SingularityCutter(m, cutter.singularities, features=fd, verbose=False))
+            if o.ok:
+                c2 = o.value
+                o = call(c2.run)
+                if o.ok:
+                    obs2, err = _observe(m, c2, want_views=False)
+                    if err is not None:
+                        o = err[1]
+                    else:
+                        _, ne, f2 = _judge(T, pts, S, obs2)
+                        self.evals += ne
+                        seen_groups = set()
+                        for f in f2:
+                            if (f["sub"], f["kind"]) not in self.twin_fails and f["group"] not in seen_groups:
+                                seen_groups.add(f["group"])
+                                bad("shared_arguments." + f["sub"], EV_CALLEE[ev], f["kind"], f["extra"])
+        elif ev == "run":
+            o = call(cutter.run)
+        else:
+            o = call(lambda: None)
+        if not o.ok:
+            bad("call_raises", EV_CALLEE[ev], exc_kind(o), {"msg": o.msg})
+        # ---- what every call must leave alone
+        inputs = _snap_inputs(m, live["Sarg"], fd)
+        rep_ = _snap_reported(cutter)
+        self.evals += 3
+        before = live["inputs0"] if prev is None else prev[1]
+        for k in ("singularities", "feature_sets", "input_mesh"):
+            if inputs[k] != before[k]:
+                bad("inputs_unchanged", EV_CALLEE[ev], "side_effect:%s_changed" % k,
+                    {} if k == "input_mesh" else {"before": before[k], "after": inputs[k]})
+        if prev is not None and ev in READERS:
+            for k in ("cut_edges", "cut_adj"):
+                if rep_[k] != prev[0][k]:
+                    bad("reported_sets_unchanged", EV_CALLEE[ev], "side_effect:%s_changed" % k, {"before": prev[0][k], "after": rep_[k]})
+        # ---- ref_vertex: the map of the fresh twin, or still missing as long as the cut mesh was never asked for
+        if ev is not None:
+            live["hist"].append(ev)
+        ok_now = rep_["ref"] == self.twin_ref or (rep_["ref"] is None and "output_mesh" not in live["hist"])
+        if live["ref_ok"] and not ok_now:
+            bad("query_order", "SingularityCutter.ref_vertex", "mismatch:ref_vertex_differs_from_fresh_twin",
+                {"got": rep_["ref"], "twin": self.twin_ref, "after_call": ev})
+        live["ref_ok"] = ok_now
+        live["prev"] = (rep_, inputs)
+        live["fails"].append(fails)
+        live["keys"].append(_state_key(cutter, rep_, inputs))
+        return fails
+
+    def close(self, live):
+        """Closing re-check of every clause of the statement on the object that went through the whole history (the queries of the
+        re-check are themselves calls: the object is spent afterwards)."""
+        T, pts, S = self.twin["T"], self.twin["pts"], self.S
+        final = []
+        obs, err = _observe(live["m"], live["cutter"], want_views=not T.expect_uncut(S))
+        if err is not None:
+            final.append({"sub": "history.final.call_raises", "callee": "SingularityCutter." + err[0], "kind": exc_kind(err[1]), "extra": {"msg": err[1].msg}})
+        else:
+            _, ne, ff = _judge(T, pts, S, obs)
+            self.evals += ne + 1
+            seen_groups = set()
+            for f in ff:
+                if (f["sub"], f["kind"]) not in self.twin_fails and f["group"] not in seen_groups:
+                    seen_groups.add(f["group"])
+                    final.append({"sub": "history.final." + f["sub"], "callee": "SingularityCutter." + f["callee"], "kind": f["kind"], "extra": f["extra"]})
+            if not final and obs["cut_raw"] != self.twin["obs"]["cut_raw"]:      # same input, same argument form, deterministic code
+                final.append({"sub": "history.query_order", "callee": "SingularityCutter.cut_edges", "kind": "mismatch:cut_edges_differ_from_fresh_twin",
+                              "extra": {"got": obs["cut_raw"], "twin": self.twin["obs"]["cut_raw"]}})
+        live["cutter"] = None
+        return final
+
+    def run(self, hist):
+        """One whole history on fresh objects -> {"keys", "fails" (per step), "final"}.  Pure: nothing is recorded."""
+        live = self.start()
+        for ev in hist:
+            self.step(live, ev)
+        self.runs += 1
+        return {"keys": live["keys"], "fails": live["fails"], "final": self.close(live)}
+
+    # ---------------------------------------------------------------- class of a failing history: a minimal failing history
+    def minimal(self, hist, fail, final):
+        same = (lambda r: any(f["sub"] == fail["sub"] and f["kind"] == fail["kind"] for f in r["final"])) if final else \
+               (lambda r: any(f["sub"] == fail["sub"] and f["kind"] == fail["kind"] for f in r["fails"][-1]))
+        key = (fail["sub"], fail["kind"], final)
+        for known in self.ses.minimal_hist.setdefault(key, []):
+            if _is_subsequence(known, hist) and (final or known[-1:] == tuple(hist[-1:])):
+                return known
+        cur, i = list(hist), 0
+        while i < len(cur) - (0 if final else 1):          # the call after which the failure shows stays last
+            trial = cur[:i] + cur[i + 1:]
+            if same(self.run(tuple(trial))):
+                cur = trial
+            else:
+                i += 1
+        self.ses.minimal_hist[key].append(tuple(cur))
+        return tuple(cur)
+
+    # ---------------------------------------------------------------- the search
+    def search(self, depth):
+        """Breadth-first over the states of the cutter.  From every distinct clean state every event is tried; an event that leaves the
+        state key unchanged leaves the object in the same state, so the same live object goes on with the next event (its actual
+        history, no-op calls included, is what gets reported); an event that changes the state spends the object: the closing
+        re-check is made on it and the state is re-created by replaying its history on fresh objects.
+        Returns (violations [(actual history, fail, final)], stats)."""
+        T, S = self.twin["T"], self.S
+        alphabet = [e for e in EVENTS if not (e == "cut_graph" and T.expect_uncut(S))]
+        found = []
+        stats = {"transitions": 0, "events": set(), "states": 0}
+
+        def spend(live):
+            """closing re-check; speaks only when no step of the history did"""
+            if live is None or live["cutter"] is None:
+                return False
+            clean = not any(live["fails"])
+            final = self.close(live)
+            self.runs += 1
+            if clean:
+                for f in final:
+                    found.append((tuple(live["hist"]), f, True))
+            return bool(final)
+
+        def replay(hist, keys):
+            live = self.start()
+            for ev in hist:
+                self.step(live, ev)
+            if keys is not None and live["keys"] != keys:
+                found.append((tuple(hist), {"sub": "history.deterministic", "callee": "SingularityCutter.run", "extra": {},
+                                            "kind": "mismatch:replayed_history_reached_another_state"}, False))
+                spend(live)
+                return None
+            return live
+        live = replay((), None)
+        seen = {live["keys"][-1]}
+        if live["fails"][0]:
+            for f in live["fails"][0]:
+                found.append(((), f, False))
+            frontier = []
+        else:
+            frontier = [((), list(live["keys"]))]
+        live_for = ()
+        while frontier:
+            hist, keys = frontier.pop(0)
+            if live is None or live_for != hist:
+                spend(live)
+                live = replay(hist, keys)
+            for ev in alphabet:
+                if live is None:
+                    live = replay(hist, keys)
+                    if live is None:
+                        break
+                fails = self.step(live, ev)
+                stats["transitions"] += 1; stats["events"].add(ev)
+                k = live["keys"][-1]
+                if fails:
+                    for f in fails:
+                        found.append((tuple(live["hist"]), f, False))
+                    seen.add(k)
+                    spend(live); live = None
+                elif k != keys[-1]:
+                    new = k not in seen
+                    seen.add(k)
+                    nominal, nkeys = hist + (ev,), keys + [k]
+                    failed = spend(live); live = None
+                    if new and not failed and len(nominal) < depth:
+                        frontier.append((nominal, nkeys))
+            spend(live); live = None
+        stats["states"] = len(seen)
+        return found, stats
+
+
+def _history_sets(T, rule):
+    n = T.n
+    if rule == "few":
+        inner = [v for v in range(n) if v not in T.border_vertices]
+        picks = sorted(set([0, n - 1] + inner[:1] + inner[-1:]))
+        out = [[]] + [[v] for v in picks] + [[picks[0], picks[-1]]]
+        if len(inner) >= 2:
+            out.append([inner[0], inner[-1]])
+        out.append(list(range(n)))
+        uniq = []
+        for s_ in out:
+            if s_ not in uniq:
+                uniq.append(s_)
+        return uniq
+    return _subsets(n, int(rule))
+
+
+def run_history_task(task, rep: Report):
+    import mouette as M
+    geom, feat, depth = task["geom"], task["feat"], task["history"]
+    ses = Session(M, rep)
+    for spec in task["meshes"]:
+        name, pts, faces, T = ses.input(spec, geom)
+        if T is None:
+            rep.count("filtered_not_connected_manifold")
+            continue
+        rep.count("history_meshes")
+        for S in _history_sets(T, task["sets"]):
+            hs = HistorySearch(ses, spec, geom, feat, S)
+            tw = hs.twin
+            if "skip" in tw:
+                rep.count(tw["skip"]); continue
+            if tw["obs"] is None:
+                rep.count("history_twin_raised"); continue        # reported by the main cases
+            found, stats = hs.search(depth)
+            rep.states += stats["states"]; rep.transitions += stats["transitions"]; rep.traces += hs.runs
+            rep.evaluations += hs.evals
+            rep.count("history_configurations")
+            rep.outcome("history_states", min(stats["states"], 12))
+            if stats["states"] >= 4:
+                rep.flag("history:lazy_results_distinguished")      # nothing / cut mesh / polyline / both built = 4 states at least
+            for ev in stats["events"]:
+                rep.flag("history:" + ev)
+            rep.flag("history:" + tw["fcls"]); rep.flag("history:topo:" + T.topo_coarse())
+            if T.nontrivial(S):
+                rep.case(("history", tw["name"], geom, feat, tuple(S)))
+            for hist, fail, final in found:
+                mini = hs.minimal(hist, fail, final)
+                cls = "hist=" + (">".join(mini) if mini else "run-only")
+                detail = {"mesh": tw["name"], "points": [list(p) for p in pts], "faces": [list(f) for f in T.faces], "singularities": list(S),
+                          "singularities_passed_as": "list", "geometry": geom,
+                          "detector": {"none": None, "border": "FeatureEdgeDetector(only_border=True)", "detect": "FeatureEdgeDetector()"}[feat],
+                          "topology": T.topo_class(), "history_after_run": list(hist), "minimal_failing_history": list(mini),
+                          "failure_seen": "closing re-check of all clauses after the history" if final else "right after the last call of the history"}
+                detail.update(fail["extra"])
+                rep.violation("C16." + fail["sub"], fail["callee"], fail["kind"], cls, detail)
+
+
 def run_task(task, rep: Report):
+    if task.get("history"):
+        return run_history_task(task, rep)
     import mouette as M
     geom, feat, smax = task["geom"], task["feat"], task["smax"]
     part, parts = task["part"]
@@ -717,10 +1147,13 @@ def finish(tier, rep: Report):
             "cutter_took_feature_path", "sphere_left_uncut", "sphere_cut", "singularities_on_and_off_border", "second_run_on_used_mesh"]
     if tier == "thorough":
         need.append("sing:S3")
+    need += ["history:" + ev for ev in EVENTS] + ["history:feat=none", "history:feat=border", "history:feat=crease", "history:lazy_results_distinguished",
+                                                  "history:topo:sphere", "history:topo:disk", "history:topo:bordered:b>1", "history:topo:closed:g>0",
+                                                  "history:topo:bordered:g>0"]
     for f in need:
         if f not in rep.flags:
             fails.append("coverage flag missing: " + f)
-    for kind in ("topology", "interior_cut_edges", "result"):
+    for kind in ("topology", "interior_cut_edges", "result", "history_states"):
         if len(rep.outcomes.get(kind, ())) < 2:
             fails.append(f"observation {kind} took a single value over the whole run")
     for k, want in PINNED.items():
